@@ -477,37 +477,95 @@ fn run_sio(v: &[u64]) {
     vassert!(i0 == (0, x.len()) && i1 == (x.len(), all.len()), "VF:slice_opt.index");
 }
 
-// ------------------------------------------------------------------------------------------------ OwnedRegion forms with their own code path
-// args: n (0..3), a0 a1 a2, form (0 [T;N], 1 PushIter over a Vec, 2 PushIter over an array iterator), prefill (0/1)
+// ------------------------------------------------------------------------------------------------ OwnedRegion: every input form against the canonical one
+// args: n (0..3, or 4 = a 40-byte item longer than any capacity reached before), a0 a1 a2, form (0..8), prefill (0..2 items)
 fn pre_of(v: &[u64]) -> bool {
-    v[0] <= 3 && all_le(v, 1, 4, 255) && v[4] < 3 && v[5] < 2
+    v[0] <= 4 && all_le(v, 1, 4, 255) && v[4] < 8 && v[5] < 3
 }
 fn doms_of() -> Vec<Vec<u64>> {
-    vec![range(4), bytes(), vec![7], vec![9], range(3), range(2)]
+    vec![range(5), bytes(), vec![7], vec![9], range(8), range(3)]
 }
 fn run_of(v: &[u64]) {
-    let x = bytes3(v, 1, v[0]);
+    let x: Vec<u8> = if v[0] == 4 { (0..40u8).map(|i| i ^ v[1] as u8).collect() } else { bytes3(v, 1, v[0]) };
     let mut r = <OwnedRegion<u8>>::default();
     let mut t = <OwnedRegion<u8>>::default();
-    if v[5] == 1 {
-        let _ = r.push([1u8, 2].as_slice());
-        let _ = t.push([1u8, 2].as_slice());
+    let pre: [&[u8]; 2] = [&[1, 2], &[3]];
+    let mut earlier = Vec::new();
+    for p in pre.iter().take(v[5] as usize) {
+        earlier.push((r.push(*p), *p));
+        let _ = t.push(*p);
     }
+    let xs = x.as_slice();
     let i = match v[4] {
         0 => match x.len() {
-            0 => r.push(arr::<0>(&x)),
-            1 => r.push(arr::<1>(&x)),
-            2 => r.push(arr::<2>(&x)),
-            _ => r.push(arr::<3>(&x)),
+            0 => r.push(arr::<0>(xs)),
+            1 => r.push(arr::<1>(xs)),
+            2 => r.push(arr::<2>(xs)),
+            3 => r.push(arr::<3>(xs)),
+            _ => r.push(arr::<40>(xs)),
         },
         1 => r.push(PushIter(x.clone())),
+        2 => r.push(x.clone()),
+        3 => r.push(&x),
+        4 => r.push(&xs),
+        5 => match x.len() {
+            0 => r.push(&arr::<0>(xs)),
+            1 => r.push(&arr::<1>(xs)),
+            2 => r.push(&arr::<2>(xs)),
+            3 => r.push(&arr::<3>(xs)),
+            _ => r.push(&arr::<40>(xs)),
+        },
+        6 => match x.len() {
+            0 => r.push(&&arr::<0>(xs)),
+            1 => r.push(&&arr::<1>(xs)),
+            2 => r.push(&&arr::<2>(xs)),
+            3 => r.push(&&arr::<3>(xs)),
+            _ => r.push(&&arr::<40>(xs)),
+        },
         _ => r.push(PushIter(x.iter().copied().collect::<Vec<u8>>().into_iter())),
     };
-    let j = t.push(x.as_slice());
+    let j = t.push(xs);
     vassert!(i == j, "VF:owned.forms.index");
-    vassert!(r.index(i) == x.as_slice() && t.index(j) == x.as_slice(), "VF:owned.forms.read");
+    vassert!(r.index(i) == xs && t.index(j) == xs, "VF:owned.forms.read");
+    for (e, want) in &earlier {
+        vassert!(r.index(*e) == *want, "VF:owned.forms.earlier_read_changed");
+    }
     let (hr, ht) = (collect_heap(|cb| r.heap_size(cb)), collect_heap(|cb| t.heap_size(cb)));
     vassert!(hr[0].0 == ht[0].0, "VF:owned.forms.used_bytes");
+}
+
+// ------------------------------------------------------------------------------------------------ StringRegion: every input form against `&str`
+// args: s (catalogue index), form (0 String, 1 &String, 2 &&str, 3 &str), prefill (0..2)
+fn pre_sf(v: &[u64]) -> bool {
+    v[0] < 6 && v[1] < 4 && v[2] < 3
+}
+fn doms_sf() -> Vec<Vec<u64>> {
+    vec![range(6), range(4), range(3)]
+}
+fn run_sf(v: &[u64]) {
+    let s = string(v[0]);
+    let mut r = <StringRegion>::default();
+    let mut t = <StringRegion>::default();
+    let mut earlier = Vec::new();
+    for k in 0..v[2] {
+        earlier.push((r.push(string(k + 2)), string(k + 2)));
+        let _ = t.push(string(k + 2));
+    }
+    let owned = s.to_string();
+    let i = match v[1] {
+        0 => r.push(owned.clone()),
+        1 => r.push(&owned),
+        2 => r.push(&s),
+        _ => r.push(s),
+    };
+    let j = t.push(s);
+    vassert!(i == j, "VF:string.forms.index");
+    check_str(r.index(i), s);
+    for (e, want) in &earlier {
+        check_str(r.index(*e), want);
+    }
+    let (hr, ht) = (collect_heap(|cb| r.heap_size(cb)), collect_heap(|cb| t.heap_size(cb)));
+    vassert!(hr[0].0 == ht[0].0, "VF:string.forms.used_bytes");
 }
 
 pub fn harnesses() -> Vec<H> {
@@ -516,8 +574,10 @@ pub fn harnesses() -> Vec<H> {
             bound: "SliceRegion<MirrorRegion<u8>>: two items of length 0..3, element bytes arbitrary (native: {0,1,255}), seven input forms (slice, Vec, &Vec, &&Vec, [T;N], &[T;N], &&[T;N]), optional reserve_items/reserve_regions in between; twin fed the canonical form", kani: false },
         H { name: "slice_index_optimized", props: &["C01", "C02", "C03", "C05"], nargs: 7, pre: pre_sio, doms: doms_sio, run: run_sio, panic_ok: false,
             bound: "SliceRegion<MirrorRegion<usize>, IndexOptimized>: five inner indices over a 10-value alphabet {0..7, u32::MAX, u32::MAX+1} split into two items at any point (IndexContainer::extend inside one push), three input forms; both items re-read after each push", kani: false },
-        H { name: "owned_forms", props: &["C20", "C01"], nargs: 6, pre: pre_of, doms: doms_of, run: run_of, panic_ok: false,
-            bound: "OwnedRegion<u8>: [T;N] and PushIter forms (the two forms outside the Verus dialect) versus &[T] on twins, item length 0..3, empty or pre-filled region", kani: false },
+        H { name: "owned_forms", props: &["C20", "C01", "C02"], nargs: 6, pre: pre_of, doms: doms_of, run: run_of, panic_ok: false,
+            bound: "OwnedRegion<u8>: all eight input forms ([T;N], PushIter x2, Vec, &Vec, &&[T], &[T;N], &&[T;N]) versus &[T] on twins; item length 0..3 or 40 (longer than any capacity reached before); region pre-filled with 0..2 items, which are re-read", kani: false },
+        H { name: "string_forms", props: &["C20", "C04", "C01"], nargs: 3, pre: pre_sf, doms: doms_sf, run: run_sf, panic_ok: false,
+            bound: "StringRegion: String, &String, &&str versus &str on twins for the 6-string catalogue (1-4 byte scalars, combining sequence, empty), region pre-filled with 0..2 strings", kani: false },
         H { name: "slice_nested", props: &["C01", "C02"], nargs: 7, pre: pre_nested, doms: doms_nested, run: run_nested, panic_ok: false,
             bound: "SliceRegion<SliceRegion<MirrorRegion<u8>>>: one earlier item plus an outer item of 0..2 inner vectors of length 0..2, bytes arbitrary", kani: false },
         H { name: "string_compositions", props: &["C01", "C02", "C04", "C12"], nargs: 4, pre: pre_str, doms: doms_str, run: run_str, panic_ok: false,
